@@ -65,6 +65,36 @@ def record(src):
     return end, toks, exc
 
 
+def file_lines_text(text):
+    """What `SourceCode.from_file` is documented to see of a UTF-8 file: Python text mode with universal
+    newlines - CRLF and lone CR become LF, lines end at LF only (form feed, U+2028, NEL ... are ordinary
+    characters), the final line terminator is not a line of its own.  Trusted base: Python's file iteration."""
+    t = text.replace('\r\n', '\n').replace('\r', '\n')
+    return t[:-1] if t.endswith('\n') else t
+
+
+def record_file(text):
+    """Like record(), but the source goes through a real file and `SourceCode.from_file` (the CLI's path)."""
+    import os, tempfile
+    lex, SourceCode, T, LexerError = _load()
+    fd, path = tempfile.mkstemp(suffix='.hid', prefix='hv_c12_')
+    toks = []
+    end, exc = 0, None
+    try:
+        with os.fdopen(fd, 'wb') as f:
+            f.write(text.encode('utf-8'))
+        try:
+            for lx in lex(SourceCode.from_file(path)):
+                toks.append(flat(lx, T))
+        except LexerError:
+            end = 1
+        except Exception as e:
+            end, exc = 2, type(e).__name__
+    finally:
+        os.unlink(path)
+    return end, toks, exc
+
+
 # ---- rendering for TLC: one string of base-64 digits per case (layout in spec/LexerTrace.tla)
 DIGITS = '0123456789abcdefghijklmnopqrstuvwxyzABCDEFGHIJKLMNOPQRSTUVWXYZ-_'
 MAX_TEXT = 64 ** 3 - 1          # code points per input
